@@ -488,6 +488,12 @@ def _load_kwargs(*args, **kwargs) -> Geometry:
     def handle_path():
         from ..path import Path2D, Path3D
 
+        if any(isinstance(e, dict) for e in kwargs["entities"]):
+            # the entities are serialized, i.e. `path.export(file_type="dict")`
+            from ..path.exchange.misc import dict_to_path
+
+            kwargs.update(dict_to_path(kwargs))
+
         shape = np.shape(kwargs["vertices"])
         if len(shape) < 2:
             return Path2D()
